@@ -261,8 +261,10 @@ class EprRun:
         for _ in self.ex.execute_subroutine(Subroutine(instructions=[self._mk(i) for i in setup], app_id=0, netqasm_version=(0, 0))):
             pass
         self.ex.step_mode = True
+        self.progs = scn.get("progs") or [scn["prog"]]
+        self.cur = 0
         self.sub_id = self.ex._next_subroutine_id
-        self.gen = self.ex.execute_subroutine(Subroutine(instructions=[self._mk(i) for i in scn["prog"]], app_id=0, netqasm_version=(0, 0)))
+        self.gen = self.ex.execute_subroutine(Subroutine(instructions=[self._mk(i) for i in self.progs[0]], app_id=0, netqasm_version=(0, 0)))
         self.finished = False
         self.fault = None
         self.herr = False
@@ -286,6 +288,12 @@ class EprRun:
             try:
                 y = next(self.gen)
             except StopIteration:
+                if self.cur + 1 < len(self.progs):
+                    # the next subroutine of the application starts on the state this one left
+                    self.cur += 1
+                    self.sub_id = self.ex._next_subroutine_id
+                    self.gen = self.ex.execute_subroutine(Subroutine(instructions=[self._mk(i) for i in self.progs[self.cur]], app_id=0, netqasm_version=(0, 0)))
+                    return "next-subroutine"
                 self.finished = True
                 return "finished"
             except Exception as exc:
@@ -374,7 +382,9 @@ class EprRun:
             r = self.step()
             if r == "blocked":
                 return None
-            if r == "finished":
+            if r == "next-subroutine":
+                ev = {"a": "finish"}
+            elif r == "finished":
                 self._last_pc = pre["pc"]
                 ev = {"a": "finish"}
             else:
